@@ -350,6 +350,185 @@ Proof.
   vm_compute in E. injection E as <-. split; [reflexivity|]. cbn. tauto.
 Qed.
 
+
+(* ---- the primitive edits of the canonical graph: append / remove keep the books ---- *)
+Lemma concat_insert_atL {A} (x : list A) : forall p (L : list (list A)), Permutation (concat (insert_atL p x L)) (x ++ concat L).
+Proof.
+  induction p as [|p IH]; intros L; [destruct L; apply Permutation_refl|]. destruct L as [|a t]; [cbn; apply Permutation_refl|].
+  cbn [insert_atL concat]. apply Permutation_trans with (a ++ x ++ concat t); [apply Permutation_app_head; apply IH|].
+  rewrite !app_assoc. apply Permutation_app_tail. apply Permutation_app_comm.
+Qed.
+Lemma concat_delete_atL {A} : forall (L : list (list A)) i, (i < length L)%nat -> Permutation (concat L) (nth i L [] ++ concat (delete_atL i L)).
+Proof.
+  induction L as [|a t IH]; intros i Hi; [cbn in Hi; lia|]. destruct i as [|i]; [apply Permutation_refl|].
+  cbn [nth delete_atL concat]. apply Permutation_trans with (a ++ nth i t [] ++ concat (delete_atL i t)); [apply Permutation_app_head; apply IH; cbn in Hi; lia|].
+  rewrite !app_assoc. apply Permutation_app_tail. apply Permutation_app_comm.
+Qed.
+Lemma hd_insert_atL {A} (x : list A) p (L : list (list A)) d : (1 <= p)%nat -> L <> [] -> hd d (insert_atL p x L) = hd d L.
+Proof. intros Hp HL. destruct p; [lia|]. destruct L; [congruence|reflexivity]. Qed.
+Lemma hd_delete_atL {A} i (L : list (list A)) d : (1 <= i)%nat -> hd d (delete_atL i L) = hd d L.
+Proof. intros Hi. destruct L; [destruct i; reflexivity|]. destruct i; [lia|reflexivity]. Qed.
+Lemma idx_ok_lt' {A} (l : list A) j : idx_ok l j = true -> 0 <= j -> (Z.to_nat j < length l)%nat.
+Proof. intros H Hj. unfold idx_ok, py_index in H. assert (E : (j <? 0) = false) by lia. rewrite E in H. destruct ((0 <=? j) && (j <? Z.of_nat (length l))) eqn:E2; [lia|discriminate H]. Qed.
+Lemma list_get_nth {A} (d : A) (l : list A) j : 0 <= j -> idx_ok l j = true -> list_get d l j = nth (Z.to_nat j) l d.
+Proof. intros Hj H. unfold idx_ok, list_get, py_index in *. assert (E : (j <? 0) = false) by lia. rewrite E in *. destruct ((0 <=? j) && (j <? Z.of_nat (length l))); [reflexivity|discriminate H]. Qed.
+
+(* the insertion loop shared by append and remove: if it returns, the leg has been inserted somewhere behind the centre *)
+Lemma append_loop_inserts : forall idx L chk v lit li vi leg L', (forall i, In i idx -> 0 <= i) ->
+  py_Q_append_loop1 idx L chk v lit li vi leg = FRet L' -> exists p, (1 <= p)%nat /\ L' = insert_atL p leg L.
+Proof.
+  induction idx as [|i idx IH]; intros L chk v lit li vi leg L' Hpos H; [discriminate H|]. cbn [py_Q_append_loop1] in H.
+  destruct (idx_ok L i) eqn:EI; [|discriminate H]. destruct (Z.of_nat (length (list_get [] L i)) <=? Z.of_nat (length leg)).
+  - injection H as <-. exists (norm_insert (length L) (i + 1)). split; [|reflexivity]. pose proof (Hpos i (or_introl eq_refl)) as Hi.
+    pose proof (idx_ok_lt' L i EI Hi) as Hlt. unfold norm_insert. assert (E : (i + 1 <? 0) = false) by lia. rewrite E. lia.
+  - apply (IH L chk v lit li vi leg L'); [intros j Hj; apply Hpos; right; exact Hj|exact H].
+Qed.
+
+
+Lemma find_loop_range : forall idx L v li vi, (forall p, In p idx -> 0 <= fst p) -> py_Q_find_loop1 idx L v = FRet (li, vi) -> li = -1 \/ 0 <= li.
+Proof.
+  induction idx as [|[i leg] idx IH]; intros L v li vi Hpos H; cbn [py_Q_find_loop1] in H; [injection H as <- <-; left; reflexivity|].
+  unfold py_Q__find_in_leg in H. cbv beta iota zeta in H.
+  destruct (match Collection.find v leg with Some k_ => Z.of_nat k_ | None => -1 end >? -1).
+  - injection H as <- <-. right. apply (Hpos (i, leg)). left. reflexivity.
+  - apply (IH L v li vi); [intros p Hp; apply Hpos; right; exact Hp|exact H].
+Qed.
+Lemma find_range L v li vi : py_Q_find L v = FRet (li, vi) -> li = -1 \/ 0 <= li.
+Proof.
+  unfold py_Q_find. apply find_loop_range. intros [i leg] Hp. apply in_combine_l in Hp. apply in_map_iff in Hp. destruct Hp as [k [<- _]]. cbn [fst]. lia.
+Qed.
+Ltac stepH H := match type of H with (if ?c then _ else _) = _ => destruct c eqn:? | (match ?c with _ => _ end) = _ => destruct c eqn:? end.
+
+(* append(v, lit) outside check mode: if it returns, the graph has exactly one vertex more, v, and the same centre *)
+Theorem gen_q_append_accounts legs v lit legs' : legs <> [] -> py_Q_append legs false v lit = FRet legs' ->
+  Permutation (concat legs') (v :: concat legs) /\ hd [] legs' = hd [] legs.
+Proof.
+  intros Hne H. unfold py_Q_append in H. cbv beta iota zeta in H.
+  destruct (py_Q_find legs lit) as [[li vi]| | | |] eqn:EF; try discriminate H. destruct (find_range legs lit li vi EF) as [Hli|Hli]; [subst li; discriminate H|].
+  assert (Hn : norm_idx (length legs) li = li) by (unfold norm_idx; assert (E : (li <? 0) = false) by lia; rewrite E; reflexivity). rewrite !Hn in H.
+  set (L1 := delete_atL (Z.to_nat li) legs) in *. set (leg := list_get [] legs li) in *.
+  destruct (li =? -1) eqn:E1; [discriminate H|]. destruct (li =? 0) eqn:E0.
+  - injection H as <-. split; [apply (concat_insert_atL [v])|]. apply hd_insert_atL; [|exact Hne]. unfold norm_insert. cbn. destruct legs; [congruence|cbn [length]; lia].
+  - destruct (idx_ok legs li) eqn:EI; [|discriminate H]. destruct (negb (vi =? Z.of_nat (length leg) - 1)); [discriminate H|].
+    pose proof (idx_ok_lt' legs li EI Hli) as Hlt.
+    assert (Hleg : leg = nth (Z.to_nat li) legs []) by (unfold leg; apply list_get_nth; assumption).
+    pose proof (concat_delete_atL legs (Z.to_nat li) Hlt) as HP. rewrite <- Hleg in HP. fold L1 in HP.
+    assert (Hacc : forall p, Permutation (concat (insert_atL p (leg ++ [v]) L1)) (v :: concat legs)).
+    { intros p. eapply Permutation_trans; [apply concat_insert_atL|].
+      apply Permutation_trans with ((v :: leg) ++ concat L1); [apply Permutation_app_tail; apply Permutation_sym; apply Permutation_cons_append|].
+      cbn [app]. apply perm_skip. apply Permutation_sym. exact HP. }
+    assert (Hhd : hd [] L1 = hd [] legs) by (unfold L1; apply hd_delete_atL; lia).
+    destruct (idx_ok L1 (Z.of_nat (length L1) - 1)) eqn:EL; [|discriminate H].
+    assert (HL1 : L1 <> []) by (intros E; rewrite E in EL; discriminate EL).
+    destruct (Z.of_nat (length (leg ++ [v])) >=? Z.of_nat (length (list_get [] L1 (Z.of_nat (length L1) - 1)))).
+    + injection H as <-. split.
+      * rewrite concat_app. cbn [concat]. rewrite app_nil_r.
+        apply Permutation_trans with ((leg ++ [v]) ++ concat L1); [apply Permutation_app_comm|].
+        apply Permutation_trans with ((v :: leg) ++ concat L1); [apply Permutation_app_tail; apply Permutation_sym; apply Permutation_cons_append|].
+        cbn [app]. apply perm_skip. apply Permutation_sym. exact HP.
+      * rewrite <- Hhd. destruct L1; [congruence|reflexivity].
+    + apply append_loop_inserts in H; [|intros i Hi; apply in_map_iff in Hi; destruct Hi as [k [<- Hk]]; apply in_seq in Hk; lia].
+      destruct H as [p [Hp ->]]. split; [apply Hacc|]. rewrite <- Hhd. apply hd_insert_atL; assumption.
+Qed.
+
+Lemma firstn_exact {A} (a b : list A) : firstn (length a) (a ++ b) = a.
+Proof. induction a as [|x a IH]; [reflexivity|]. cbn [length app firstn]. rewrite IH. reflexivity. Qed.
+(* find: where the first occurrence of v sits *)
+Lemma in_enum {A} (d : A) : forall (l : list A) s i x, In (i, x) (combine (map Z.of_nat (seq s (length l))) l) -> exists k, i = Z.of_nat (s + k) /\ (k < length l)%nat /\ nth k l d = x.
+Proof.
+  induction l as [|a l IH]; intros s i x H; [destruct H|]. cbn [length seq map combine] in H. destruct H as [H|H].
+  - injection H as <- <-. exists 0%nat. repeat split; [f_equal; lia|cbn; lia].
+  - destruct (IH (S s) i x H) as [k [-> [Hk Hn]]]. exists (S k). repeat split; [f_equal; lia|cbn; lia|exact Hn].
+Qed.
+Lemma find_Some_split v : forall l k, Collection.find v l = Some k -> exists pre post, l = pre ++ v :: post /\ length pre = k /\ ~ In v pre.
+Proof.
+  induction l as [|a l IH]; intros k H; [discriminate H|]. cbn [Collection.find] in H. destruct (pstr_eqb v a) eqn:E.
+  - injection H as <-. apply pstr_eqb_eq in E. subst a. exists [], l. repeat split. intros [].
+  - destruct (Collection.find v l) as [k'|] eqn:EF; [|discriminate H]. injection H as <-. destruct (IH k' eq_refl) as [pre [post [-> [Hl Hn]]]].
+    exists (a :: pre), post. repeat split; [cbn; lia|]. intros [->|Hin]; [rewrite (proj2 (pstr_eqb_eq v v) eq_refl) in E; discriminate E|contradiction].
+Qed.
+Lemma find_loop_spec legs : forall idx v li vi, (forall i leg, In (i, leg) idx -> 0 <= i /\ (Z.to_nat i < length legs)%nat /\ nth (Z.to_nat i) legs [] = leg) ->
+  py_Q_find_loop1 idx legs v = FRet (li, vi) -> 0 <= li -> (Z.to_nat li < length legs)%nat /\ 0 <= vi /\ Collection.find v (nth (Z.to_nat li) legs []) = Some (Z.to_nat vi).
+Proof.
+  induction idx as [|[i leg] idx IH]; intros v li vi Hin H Hli; cbn [py_Q_find_loop1] in H; [injection H as <- <-; lia|].
+  unfold py_Q__find_in_leg in H. cbv beta iota zeta in H. destruct (Collection.find v leg) as [k|] eqn:EF.
+  - assert (E : (Z.of_nat k >? -1) = true) by lia. rewrite E in H. injection H as <- <-. destruct (Hin i leg (or_introl eq_refl)) as [H0 [H1 H2]].
+    split; [exact H1|]. split; [lia|]. rewrite H2, Nat2Z.id. exact EF.
+  - change (-1 >? -1) with false in H. apply (IH v li vi); [intros j l Hj; apply Hin; right; exact Hj|exact H|exact Hli].
+Qed.
+Theorem gen_q_find legs v li vi : py_Q_find legs v = FRet (li, vi) -> 0 <= li ->
+  (Z.to_nat li < length legs)%nat /\ 0 <= vi /\ Collection.find v (nth (Z.to_nat li) legs []) = Some (Z.to_nat vi).
+Proof.
+  unfold py_Q_find. apply find_loop_spec. intros i leg Hin. destruct (in_enum [] legs 0%nat i leg Hin) as [k [-> [Hk Hn]]]. cbn [Nat.add]. rewrite Nat2Z.id. repeat split; [lia|exact Hk|exact Hn].
+Qed.
+
+(* remove(v): if it returns, v and what followed it in its leg are gone, nothing else, and the centre stays *)
+Theorem gen_q_remove_accounts legs v legs' : legs <> [] -> py_Q_remove legs v = FRet legs' ->
+  exists tail, Permutation (concat legs) (v :: tail ++ concat legs') /\ hd [] legs' = hd [] legs.
+Proof.
+  intros Hne H. unfold py_Q_remove in H. cbv beta iota zeta in H.
+  destruct (py_Q_find legs v) as [[li vi]| | | |] eqn:EF; try discriminate H. destruct (find_range legs v li vi EF) as [Hli|Hli]; [subst li; discriminate H|].
+  destruct (gen_q_find legs v li vi EF Hli) as [Hlt [Hvi HF]].
+  assert (Hn : norm_idx (length legs) li = li) by (unfold norm_idx; assert (E : (li <? 0) = false) by lia; rewrite E; reflexivity). rewrite !Hn in H.
+  set (L1 := delete_atL (Z.to_nat li) legs) in *.
+  destruct (li =? -1) eqn:E1; [discriminate H|]. destruct (li =? 0) eqn:E0; [discriminate H|].
+  destruct (idx_ok legs li) eqn:EI; [|discriminate H].
+  assert (Hleg : list_get [] legs li = nth (Z.to_nat li) legs []) by (apply list_get_nth; assumption). rewrite !Hleg in H.
+  set (leg := nth (Z.to_nat li) legs []) in *.
+  destruct (find_Some_split v leg _ HF) as [pre [post [Eleg [Hpre Hnin]]]].
+  assert (Hfirst : firstn (Z.to_nat vi) leg = pre) by (rewrite Eleg, <- Hpre; apply firstn_exact). rewrite Hfirst in H.
+  pose proof (concat_delete_atL legs (Z.to_nat li) Hlt) as HP. fold leg in HP. fold L1 in HP.
+  assert (Hacc : forall p, Permutation (concat legs) (v :: post ++ concat (insert_atL p pre L1))).
+  { intros p. eapply Permutation_trans; [exact HP|]. rewrite Eleg.
+    apply Permutation_trans with (v :: post ++ pre ++ concat L1).
+    - apply Permutation_trans with ((v :: post) ++ pre ++ concat L1); [|apply Permutation_refl]. rewrite app_assoc. apply Permutation_app_tail. apply Permutation_app_comm.
+    - apply perm_skip. apply Permutation_app_head. apply Permutation_sym. apply concat_insert_atL. }
+  assert (Hhd : hd [] L1 = hd [] legs) by (unfold L1; apply hd_delete_atL; lia).
+  destruct (vi <=? Z.of_nat (length leg)); [|discriminate H].
+  destruct (Z.of_nat (length pre) =? 0) eqn:EP0.
+  - injection H as <-. exists post. split; [|exact Hhd]. assert (Hp0 : pre = []) by (destruct pre; [reflexivity|cbn in EP0; lia]).
+    eapply Permutation_trans; [exact HP|]. rewrite Eleg, Hp0. cbn [app]. apply Permutation_refl.
+  - destruct (Z.of_nat (length pre) =? 1).
+    + injection H as <-. exists post. split; [apply Hacc|]. rewrite <- Hhd. apply hd_insert_atL; [|intros E; unfold L1 in E; destruct legs as [|c [|x t]]; [congruence| |]; cbn in Hlt; destruct (Z.to_nat li) eqn:EZ; try lia; cbn in E; try discriminate E; destruct n; discriminate E].
+      unfold norm_insert. cbn. destruct L1 eqn:EL1; [|cbn [length]; lia]. exfalso. unfold L1 in EL1. destruct legs as [|c [|x t]]; [congruence|cbn in Hlt; lia|]. destruct (Z.to_nat li) eqn:EZ; [lia|]. cbn in EL1. discriminate EL1.
+    + destruct (idx_ok L1 (Z.of_nat (length L1) - 1)) eqn:EL; [|discriminate H].
+      assert (HL1 : L1 <> []) by (intros E; rewrite E in EL; discriminate EL).
+      destruct (Z.of_nat (length pre) >=? Z.of_nat (length (list_get [] L1 (Z.of_nat (length L1) - 1)))).
+      * injection H as <-. exists post. split; [|rewrite <- Hhd; destruct L1; [congruence|reflexivity]].
+        eapply Permutation_trans; [exact HP|]. rewrite Eleg, concat_app. cbn [concat]. rewrite app_nil_r.
+        apply Permutation_trans with ((v :: post) ++ pre ++ concat L1); [rewrite app_assoc; apply Permutation_app_tail; apply Permutation_app_comm|].
+        cbn [app]. apply perm_skip. apply Permutation_app_head. apply Permutation_app_comm.
+      * assert (HR : forall idx L a b c leg0 L', py_Q_remove_loop1 idx L a b c leg0 = FRet L' -> (forall i, In i idx -> 0 <= i) -> exists p, (1 <= p)%nat /\ L' = insert_atL p leg0 L).
+        { induction idx as [|i idx IHi]; intros L a b c leg0 L' HH Hpos; [discriminate HH|]. cbn [py_Q_remove_loop1] in HH.
+          destruct (idx_ok L i) eqn:EI2; [|discriminate HH]. destruct (Z.of_nat (length (list_get [] L i)) <=? Z.of_nat (length leg0)).
+          - injection HH as <-. exists (norm_insert (length L) (i + 1)). split; [|reflexivity]. pose proof (Hpos i (or_introl eq_refl)) as Hi0.
+            pose proof (idx_ok_lt' L i EI2 Hi0). unfold norm_insert. assert (E : (i + 1 <? 0) = false) by lia. rewrite E. lia.
+          - apply (IHi L a b c leg0 L' HH). intros j Hj. apply Hpos. right. exact Hj. }
+        apply HR in H; [|intros i Hi; apply in_map_iff in Hi; destruct Hi as [k [<- Hk]]; apply in_seq in Hk; lia].
+        destruct H as [p [Hp ->]]. exists post. split; [apply Hacc|]. rewrite <- Hhd. apply hd_insert_atL; assumption.
+Qed.
+
+Lemma list_set_nat {A} (l : list A) j x : 0 <= j -> idx_ok l j = true -> list_set l j x = set_nth l (Z.to_nat j) x.
+Proof. intros Hj H. unfold idx_ok, list_set, py_index in *. assert (E : (j <? 0) = false) by lia. rewrite E in *. destruct ((0 <=? j) && (j <? Z.of_nat (length l))); [reflexivity|discriminate H]. Qed.
+Lemma set_nth_mid {A} (pre : list A) x post y : set_nth (pre ++ x :: post) (length pre) y = pre ++ y :: post.
+Proof. induction pre as [|a pre IH]; [reflexivity|]. cbn [app length set_nth]. rewrite IH. reflexivity. Qed.
+(* replace(v, v_new): if it returns, one occurrence of v (the first of its leg) has become v_new and nothing else has changed *)
+Theorem gen_q_replace_accounts legs v v' legs' : py_Q_replace legs v v' = FRet legs' ->
+  exists A pre post B, legs = A ++ (pre ++ v :: post) :: B /\ legs' = A ++ (pre ++ v' :: post) :: B /\ ~ In v pre.
+Proof.
+  intros H. unfold py_Q_replace in H. cbv beta iota zeta in H.
+  destruct (py_Q_find legs v) as [[li vi]| | | |] eqn:EF; try discriminate H. destruct (find_range legs v li vi EF) as [Hli|Hli]; [subst li; discriminate H|].
+  destruct (gen_q_find legs v li vi EF Hli) as [Hlt [Hvi HF]].
+  destruct (li =? -1); [discriminate H|]. destruct (idx_ok legs li) eqn:EI; [|discriminate H].
+  assert (Hleg : list_get [] legs li = nth (Z.to_nat li) legs []) by (apply list_get_nth; assumption). rewrite !Hleg in H.
+  set (leg := nth (Z.to_nat li) legs []) in *.
+  destruct (idx_ok leg vi) eqn:EV; [|discriminate H]. injection H as <-.
+  destruct (find_Some_split v leg _ HF) as [pre [post [Eleg [Hpre Hnin]]]].
+  destruct (nth_split legs [] Hlt) as [A [B [EL HA]]]. fold leg in EL.
+  exists A, pre, post, B. split; [rewrite <- Eleg; exact EL|]. split.
+  - rewrite (list_set_nat legs li _ Hli EI), (list_set_nat leg vi _ Hvi EV). rewrite Eleg at 1. rewrite <- Hpre, set_nth_mid. rewrite EL at 1. rewrite <- HA, set_nth_mid. reflexivity.
+  - exact Hnin.
+Qed.
 Print Assumptions gen_q_anti_commutates.
 Print Assumptions gen_q_max_connected.
 Print Assumptions gen_q_append_to_queue.
@@ -357,3 +536,7 @@ Print Assumptions gen_q_get_queue.
 Print Assumptions gen_queue_runs.
 Print Assumptions gen_q_check_dependency.
 Print Assumptions gen_q_check_dependency_refuted.
+Print Assumptions gen_q_find.
+Print Assumptions gen_q_append_accounts.
+Print Assumptions gen_q_remove_accounts.
+Print Assumptions gen_q_replace_accounts.
